@@ -25,6 +25,9 @@ type Step3 struct {
 	Name     string
 	S        sdf.SDF3
 	InfoOnly bool // only Info is called (the output routines call Info, then Render)
+	// Before (may be nil) runs before the calls of this step: an in-place change of the model value S
+	// (SetMin, SetExtrude, a parameter of a user-defined field, ...).  See mutate.go.
+	Before func()
 }
 
 // Step2: see Step3.
@@ -32,6 +35,7 @@ type Step2 struct {
 	Name     string
 	S        sdf.SDF2
 	InfoOnly bool
+	Before   func()
 }
 
 // ReuseDiff is one discrepancy between the reused and a fresh renderer value.
@@ -85,6 +89,16 @@ func (c *Counted2) Exceeded() bool { return c.Max > 0 && atomic.LoadInt64(&c.N) 
 // budget of the reused renderer relative to the evaluations of the fresh one
 func budget(fresh int64) int64 { return 30*fresh + 100000 }
 
+// sameValue: a == b for interface values, false when the dynamic type is not comparable.
+func sameValue(a, b interface{}) (eq bool) {
+	defer func() {
+		if recover() != nil {
+			eq = false
+		}
+	}()
+	return a == b
+}
+
 func safely(f func()) (msg string) {
 	defer func() {
 		if e := recover(); e != nil {
@@ -99,17 +113,41 @@ func safely(f func()) (msg string) {
 // (unless InfoOnly) the triangle sequence is compared, bit for bit and in order, with that of a
 // fresh renderer value made by mk for the same model.  visit (may be nil) receives every render of the
 // reused renderer together with the model, for the caller's own oracles.
+//
+// The reused renderer value is handed the SAME value (one counting wrapper per distinct st.S, kept for the
+// whole history) whenever a model recurs, the fresh renderer value a wrapper of its own: a renderer (or the
+// package) that recognises a model it has seen before by identity - and keeps what it evaluated although the
+// model was changed in place by st.Before since - differs from the fresh one.
 func Reuse3(mk func() render.Render3, steps []Step3, visit func(i int, st Step3, ts []*sdf.Triangle3)) []ReuseDiff {
 	var out []ReuseDiff
 	reused := mk()
+	type held struct {
+		s sdf.SDF3
+		c *Counted3
+	}
+	var wrappers []held
+	wrapper := func(s sdf.SDF3) *Counted3 {
+		for _, h := range wrappers {
+			if sameValue(h.s, s) {
+				return h.c
+			}
+		}
+		c := &Counted3{S: s}
+		wrappers = append(wrappers, held{s, c})
+		return c
+	}
 	for i, st := range steps {
 		bad := func(f string, a ...interface{}) {
 			out = append(out, ReuseDiff{i, st.Name, fmt.Sprintf(f, a...)})
 		}
+		if st.Before != nil {
+			st.Before()
+		}
 		fresh := mk()
 		// Info is called as the output routines do (it is a step of the history); its text is not an
 		// observable of the mesh properties and is not compared
-		if msg := safely(func() { reused.Info(st.S) }); msg != "" {
+		cr := wrapper(st.S)
+		if msg := safely(func() { reused.Info(cr) }); msg != "" {
 			bad("Info panicked: %s", msg)
 		}
 		if st.InfoOnly {
@@ -117,7 +155,8 @@ func Reuse3(mk func() render.Render3, steps []Step3, visit func(i int, st Step3,
 		}
 		cf := &Counted3{S: st.S}
 		want := render.ToTriangles(cf, fresh)
-		cr := &Counted3{S: st.S, Max: budget(cf.N)}
+		atomic.StoreInt64(&cr.N, 0)
+		cr.Max = budget(cf.N)
 		var got []*sdf.Triangle3
 		if msg := safely(func() { got = render.ToTriangles(cr, reused) }); msg != "" {
 			bad("Render panicked: %s", msg)
@@ -152,14 +191,33 @@ func Reuse3(mk func() render.Render3, steps []Step3, visit func(i int, st Step3,
 func Reuse2(mk func() render.Render2, steps []Step2, visit func(i int, st Step2, ls []*sdf.Line2)) []ReuseDiff {
 	var out []ReuseDiff
 	reused := mk()
+	type held struct {
+		s sdf.SDF2
+		c *Counted2
+	}
+	var wrappers []held
+	wrapper := func(s sdf.SDF2) *Counted2 {
+		for _, h := range wrappers {
+			if sameValue(h.s, s) {
+				return h.c
+			}
+		}
+		c := &Counted2{S: s}
+		wrappers = append(wrappers, held{s, c})
+		return c
+	}
 	for i, st := range steps {
 		bad := func(f string, a ...interface{}) {
 			out = append(out, ReuseDiff{i, st.Name, fmt.Sprintf(f, a...)})
 		}
+		if st.Before != nil {
+			st.Before()
+		}
 		fresh := mk()
 		// Info is called as the output routines do (it is a step of the history); its text is not an
 		// observable of the mesh properties and is not compared
-		if msg := safely(func() { reused.Info(st.S) }); msg != "" {
+		cr := wrapper(st.S)
+		if msg := safely(func() { reused.Info(cr) }); msg != "" {
 			bad("Info panicked: %s", msg)
 		}
 		if st.InfoOnly {
@@ -167,7 +225,8 @@ func Reuse2(mk func() render.Render2, steps []Step2, visit func(i int, st Step2,
 		}
 		cf := &Counted2{S: st.S}
 		want := ToLines(cf, fresh)
-		cr := &Counted2{S: st.S, Max: budget(cf.N)}
+		atomic.StoreInt64(&cr.N, 0)
+		cr.Max = budget(cf.N)
 		var got []*sdf.Line2
 		if msg := safely(func() { got = ToLines(cr, reused) }); msg != "" {
 			bad("Render panicked: %s", msg)
